@@ -15,31 +15,107 @@ UNKNOWN = object()
 
 
 def literal_params(repo):
-    """key -> python constant, for the constant-valued entries of the dict
-    literal returned by revolver_parameters"""
+    """key -> python constant, for the constant-valued entries of the dictionary returned by revolver_parameters, and
+    key -> parameter name for the entries that hand a parameter on.  The function body is followed statement by statement
+    (dict displays, dict(...), lists of (key, value) pairs, .update(...), item stores); if anything else touches the
+    dictionary the extraction is *incomplete* (`literal_params.complete` False) and nothing is assumed constant."""
     f = repo.func(SEQ + "utils.py", "revolver_parameters")
     params = {a.arg for a in f.args.args}
-    dicts = {}
-    ret = None
-    for s in f.body:
-        if isinstance(s, ast.Assign) and isinstance(s.value, ast.Dict) and isinstance(s.targets[0], ast.Name):
-            dicts[s.targets[0].id] = s.value
-        if isinstance(s, ast.Return):
-            ret = s.value
-    d = ret if isinstance(ret, ast.Dict) else dicts.get(getattr(ret, "id", None))
+    dicts, pairs = {}, {}
+    literal_params.complete = False
+
+    def pair_list(v):
+        if isinstance(v, (ast.List, ast.Tuple)) and all(isinstance(e, (ast.Tuple, ast.List)) and len(e.elts) == 2
+                                                         and isinstance(e.elts[0], ast.Constant) for e in v.elts):
+            return [(e.elts[0].value, e.elts[1]) for e in v.elts]
+        return None
+
+    def dict_of(v):
+        """expression -> dict key -> value node, or None"""
+        if isinstance(v, ast.Dict) and all(isinstance(k, ast.Constant) for k in v.keys):
+            return {k.value: val for k, val in zip(v.keys, v.values)}
+        if isinstance(v, ast.Name) and v.id in dicts:
+            return dict(dicts[v.id])
+        if isinstance(v, ast.Call) and isinstance(v.func, ast.Name) and v.func.id == "dict":
+            out = {}
+            for a in v.args:
+                d = dict_of(a)
+                if d is None:
+                    pl = pairs.get(a.id) if isinstance(a, ast.Name) else pair_list(a)
+                    if pl is None:
+                        return None
+                    d = dict(pl)
+                out.update(d)
+            for k in v.keywords:
+                if k.arg is None:
+                    d = dict_of(k.value)
+                    if d is None:
+                        return None
+                    out.update(d)
+                else:
+                    out[k.arg] = k.value
+            return out
+        return None
+    result = None
+    ok = True
+    for s_ in f.body:
+        if isinstance(s_, ast.Expr) and isinstance(s_.value, ast.Constant):
+            continue
+        if isinstance(s_, ast.Assert):
+            continue
+        if isinstance(s_, ast.Assign) and len(s_.targets) == 1 and isinstance(s_.targets[0], ast.Name):
+            d = dict_of(s_.value)
+            if d is not None:
+                dicts[s_.targets[0].id] = d
+                continue
+            pl = pair_list(s_.value)
+            if pl is not None:
+                pairs[s_.targets[0].id] = pl
+                continue
+            if any(isinstance(x, ast.Name) and (x.id in dicts or x.id in pairs) for x in ast.walk(s_.value)):
+                ok = False
+            continue
+        if isinstance(s_, ast.Assign) and len(s_.targets) == 1 and isinstance(s_.targets[0], ast.Subscript) \
+                and isinstance(s_.targets[0].value, ast.Name) and s_.targets[0].value.id in dicts \
+                and isinstance(s_.targets[0].slice, ast.Constant):
+            dicts[s_.targets[0].value.id][s_.targets[0].slice.value] = s_.value
+            continue
+        if isinstance(s_, ast.Expr) and isinstance(s_.value, ast.Call) and isinstance(s_.value.func, ast.Attribute) \
+                and s_.value.func.attr == "update" and isinstance(s_.value.func.value, ast.Name) and s_.value.func.value.id in dicts:
+            tgt = dicts[s_.value.func.value.id]
+            good = True
+            for a in s_.value.args:
+                d = dict_of(a)
+                if d is None:
+                    pl = pairs.get(a.id) if isinstance(a, ast.Name) else pair_list(a)
+                    if pl is None:
+                        good = False
+                        break
+                    d = dict(pl)
+                tgt.update(d)
+            for k in s_.value.keywords:
+                if k.arg is None:
+                    good = False
+                else:
+                    tgt[k.arg] = k.value
+            if not good:
+                ok = False
+            continue
+        if isinstance(s_, ast.Return):
+            result = dict_of(s_.value) if s_.value is not None else None
+            break
+        # anything else: fine as long as it does not touch the dictionaries
+        if any(isinstance(x, ast.Name) and (x.id in dicts or x.id in pairs) for x in ast.walk(s_)):
+            ok = False
     out, roles = {}, {}
-    if d is None:
+    if result is None or not ok:
         return out, roles
-    # the dict must not be modified between its creation and the return
-    for n in ast.walk(f):
-        if isinstance(n, ast.Subscript) and isinstance(n.ctx, ast.Store):
-            return {}, {}
-    for k, v in zip(d.keys, d.values):
-        if isinstance(k, ast.Constant):
-            if isinstance(v, ast.Constant):
-                out[k.value] = v.value
-            elif isinstance(v, ast.Name) and v.id in params:
-                roles[k.value] = v.id
+    literal_params.complete = True
+    for k, v in result.items():
+        if isinstance(v, ast.Constant):
+            out[k] = v.value
+        elif isinstance(v, ast.Name) and v.id in params:
+            roles[k] = v.id
     return out, roles
 
 
@@ -157,7 +233,7 @@ def opaque_names(fn, funcs, dict_names):
                 else:
                     return True
             if isinstance(x, ast.Subscript) and isinstance(x.slice, ast.Constant) and isinstance(x.slice.value, str) \
-                    and isinstance(x.value, ast.Name) and x.value.id not in dict_names:
+                    and isinstance(x.value, ast.Name) and (x.value.id not in dict_names or not getattr(literal_params, "complete", True)):
                 return True
         return False
     params = {a.arg for a in fn.args.args + fn.args.kwonlyargs}
@@ -345,6 +421,14 @@ class Liveness:
             yield s
             if isinstance(s, ast.If):
                 v = ev_const(s.test, env, dn, self.lit)
+                if v is UNKNOWN and fname == "disk_revolve" and isinstance(s.test, ast.Compare) and len(s.test.ops) == 1 \
+                        and isinstance(s.test.ops[0], ast.Eq) and isinstance(s.test.left, ast.Name) and s.test.left.id == "cm" \
+                        and isinstance(s.test.comparators[0], ast.Constant) and s.test.comparators[0].value == 0:
+                    # Disk-Revolve without memory slots: the constructors reject snapshots_in_ram < 1 (decided by C17), and
+                    # disk_revolve hands cm on unchanged, so no emitted stream comes from this branch
+                    for d in s.body:
+                        for n in ast.walk(d):
+                            self.maybe_nodes.add(id(n))
                 if v is UNKNOWN:
                     if self._opaque_test(fname, s.test):
                         for d in list(s.body) + list(s.orelse):
